@@ -33,7 +33,14 @@ class Shape:
     trivial: bool
     defaults: tuple          # of (kind, src)  kind in no|val|fac
     values: tuple            # python source of raw values (None only where the type admits it)
-    fty_term: str = ""       # OptProj.fty term; derived from ty when empty
+    fty_term: str = ""       # OptProj.fty term (the RESOLVED type); derived from ty when empty
+    dty_term: str = ""       # K17Proofs.dty term (the DECLARED type); DTy <fty> when empty
+    bound_var: bool = False  # declared with a type variable left unbound whose bound admits None (known finding
+                             # omit-none-typevar-bound): tynull is what the property needs, fty_term what the code sees
+
+    @property
+    def dty(self) -> str:
+        return self.dty_term or f"(DTy {self.fty})"
 
     @property
     def fty(self) -> str:
@@ -93,21 +100,29 @@ SHAPES = [
     Shape("optfloat", "Optional[float]", True, True, (("val", "float('nan')"), ("val", "None")),
           ("None", "float('nan')", "1.0")),
 ]
-# the field `gv: T` of a generic dataclass, as the specialisation sees it (OptProj.fty is the RESOLVED type)
+# the field `gv: T` of a generic dataclass, as the specialisation sees it (OptProj.fty is the RESOLVED type, K17Proofs.dty
+# the declared one: the variable with its binding)
 GENERIC_SHAPES = {
     "": Shape("tv_any", "T", True, True, (("no", None),), ("None", "1", "'q'"), "TyTypeVarAny"),     # bare G: T unbound
-    "int": Shape("tv_int", "T", False, True, (("no", None),), ("1", "0", "7")),
-    "date": Shape("tv_date", "T", False, False, (("no", None),), ("date(2020, 1, 1)", "date(1999, 9, 9)")),
+    "int": Shape("tv_int", "T", False, True, (("no", None),), ("1", "0", "7"), "TyPlain", "(DVar TyPlain)"),
+    "date": Shape("tv_date", "T", False, False, (("no", None),), ("date(2020, 1, 1)", "date(1999, 9, 9)"), "TyPlain", "(DVar TyPlain)"),
     # T bound to Optional[...] / a wider union with None / Any: is_field_nullable resolves the variable first
     # (/repo 4da7e9e, was finding omit-none-typevar-optional) -> nullable like the binding
-    "Optional[int]": Shape("tv_optint", "T", True, True, (("no", None),), ("None", "5", "3"), "TyOptional"),
+    "Optional[int]": Shape("tv_optint", "T", True, True, (("no", None),), ("None", "5", "3"), "TyOptional", "(DVar TyOptional)"),
     "Optional[date]": Shape("tv_optdate", "T", True, False, (("no", None),), ("None", "date(2020, 1, 1)", "date(1999, 9, 9)"),
-                            "TyOptional"),
-    "Union[int, str, None]": Shape("tv_wide", "T", True, True, (("no", None),), ("None", "5", "'s'"), "TyUnionNone"),
-    "Any": Shape("tv_bound_any", "T", True, True, (("no", None),), ("None", "'q'", "1"), "TyAny"),
+                            "TyOptional", "(DVar TyOptional)"),
+    "Union[int, str, None]": Shape("tv_wide", "T", True, True, (("no", None),), ("None", "5", "'s'"), "TyUnionNone", "(DVar TyUnionNone)"),
+    "Any": Shape("tv_bound_any", "T", True, True, (("no", None),), ("None", "'q'", "1"), "TyAny", "(DVar TyAny)"),
 }
+# the second field `ga: Annotated[T, 'm']` of the same classes
+GENERIC_ANN_SHAPES = {
+    targ: replace(sh, key="a" + sh.key, ty="Annotated[T, 'm']", fty_term=f"(TyAnnotated {sh.fty})",
+                  dty_term=f"(DAnnotated {sh.dty})") for targ, sh in GENERIC_SHAPES.items()}
+# `gv: B`, B = TypeVar("B", bound=Optional[int]), in a class nobody specialises: the packer treats the field as its bound
+# (None is a conforming value), is_field_nullable looks at the variable (not nullable)
+BOUND_SHAPE = Shape("tvb_optint", "B", True, True, (("no", None),), ("None", "5", "3"), "TyPlain", "(DVarBound TyOptional)", True)
 SHAPE = {s.key: s for s in SHAPES}
-SHAPE.update({s.key: s for s in GENERIC_SHAPES.values()})
+SHAPE.update({s.key: s for s in list(GENERIC_SHAPES.values()) + list(GENERIC_ANN_SHAPES.values()) + [BOUND_SHAPE]})
 
 
 @dataclass(frozen=True)
@@ -178,6 +193,7 @@ from mashumaro.config import (BaseConfig, TO_DICT_ADD_OMIT_NONE_FLAG, TO_DICT_AD
 from mashumaro.dialect import Dialect
 from mashumaro.mixins.toml import DataClassTOMLMixin
 T = TypeVar("T")
+B = TypeVar("B", bound=Optional[int])
 class Color(enum.Enum):
     RED = 1
     BLUE = 2
@@ -387,7 +403,7 @@ def equals_default(raw, d) -> bool:
     return bool(raw == d)
 
 
-def project(e: dict, fields: list[FieldSpec], defaults: dict, inst, plain: dict, sub=None) -> dict:
+def project(e: dict, fields: list[FieldSpec], defaults: dict, inst, plain: dict, sub=None, keep_none=()) -> dict:
     names = [f.name for f in fields]
     assert list(plain.keys()) == names, (list(plain.keys()), names)
     by = {f.name: f for f in fields}
@@ -399,7 +415,7 @@ def project(e: dict, fields: list[FieldSpec], defaults: dict, inst, plain: dict,
         v = plain[n] if sub is None or n not in sub else sub[n]
         if f.omit:
             continue
-        if e["on"] and plain[n] is None:
+        if e["on"] and plain[n] is None and n not in keep_none:
             continue
         if e["od"] and n in defaults and equals_default(getattr(inst, n), defaults[n]):
             continue
@@ -592,16 +608,18 @@ def coq_case(o: Opts, fields, defaults, inst, plain: dict, observed, real_nullab
             f"{coq_list(coq_bool(b) for b in (real_nullable or []))}))")
 
 
-def real_nullables(ns: dict, cls: str, fields) -> list | None:
-    """CodeBuilder.is_field_nullable of the REAL class for every field (tie of the harness's shape table and of
-    the model's `nullable` to the implementation); None when the method does not exist"""
+def real_nullables(ns: dict, cls: str, fields, type_args: tuple = ()) -> list:
+    """CodeBuilder.is_field_nullable of the REAL class (specialised with type_args) for every field: tie of the harness's
+    shape table and of the model's `nullable` to the implementation.  Fails closed: if the builder cannot be asked, the
+    answer has the wrong length and every comparison with it is a mismatch."""
     try:
         from mashumaro.core.meta.code.builder import CodeBuilder
-        b = CodeBuilder(ns[cls])
+        b = CodeBuilder(ns[cls], type_args)
+        b.reset()                # resolved_type_params (get_real_type needs them)
         ft = b.get_field_types(include_extras=True)
         return [bool(b.is_field_nullable(f.name, ft[f.name])) for f in fields]
     except Exception:
-        return None
+        return [True] * (len(fields) + 1)
 
 
 # ---------------------------------------------------------------------------
@@ -754,8 +772,9 @@ class NCls:
     n_inh: int = 0
     own_cfg: bool = True
     cfg_owner: int = -1       # class whose CfgD<id> dialect class o.cfgd refers to
-    generic: bool = False     # class C(Generic[T]) whose first own field is `gv: T`; every reference uses the same targ
+    generic: bool = False     # class C(Generic[T]) with the fields `gv: T` [, `ga: Annotated[T, 'm']`]; every reference uses the same targ
     targ: str = ""
+    tvar: str = "T"           # "B": Generic[B] with `gv: B` (bounded variable; never specialised)
 
 
 LEAF_NESTED = [("optint", "val", "None"), ("int", "val", "1"), ("date", "no", None), ("optdate", "val", "None"),
@@ -818,6 +837,8 @@ def gen_table(rng, unions: bool = True, inherit: bool = True, generics: float = 
             generic, targ = True, rng.choice(list(GENERIC_SHAPES))
             fields.insert(rng.randrange(len(fields) + 1),
                           FieldSpec("gv", GENERIC_SHAPES[targ].key, "no", None, "GV" if rng.random() < 0.4 else None, False))
+            if rng.random() < 0.4:
+                fields.insert(rng.randrange(len(fields) + 1), FieldSpec("ga", GENERIC_ANN_SHAPES[targ].key, "no", None, None, False))
         table[cid] = NCls(o, tuple(inherited) + tuple(fields), mixin, parent, len(inherited), own_cfg, cfg_owner, generic, targ)
     return table
 
@@ -899,7 +920,7 @@ def class_base(c: NCls, prefix: str) -> str | None:
     if c.parent is not None:
         return f"{prefix}{c.parent}"
     if c.generic:
-        return "DataClassDictMixin, Generic[T]" if c.mixin else "Generic[T]"
+        return f"DataClassDictMixin, Generic[{c.tvar}]" if c.mixin else f"Generic[{c.tvar}]"
     return None
 
 
@@ -1016,7 +1037,19 @@ def walk(table, ns, t, inst, plain, members, outer, avail, mode: str, hits: dict
                                    mode, hits, codec) for k, y in x.items()}
         elif isinstance(f, DcField) and not isinstance(x, str):
             sub[f.name] = walk(table, ns, x, getattr(inst, f.name), plain[f.name], f.members, cls_flags(c), avail2, mode, hits, codec)
-    return project(e, fields, defaults, inst, plain, sub)
+    if codec is None and c.generic and c.targ and o.call is not None:
+        # known finding dialect-drops-type-args: the dialect-specific method of a specialised generic class is compiled (and
+        # cached per dialect) WITHOUT the type arguments: `gv: T` is packed as an unconstrained variable (the raw object)
+        raw = {f.name: getattr(inst, f.name) for f in fields if isinstance(f, FieldSpec) and f.name in ("gv", "ga")
+               and not f.sh.trivial and getattr(inst, f.name) is not None}
+        if raw:
+            hits["gdl"] = True
+            if mode == "kf":
+                sub.update(raw)
+    bound_none = [f.name for f in fields if isinstance(f, FieldSpec) and f.sh.bound_var and plain[f.name] is None]
+    if bound_none:
+        hits["tvb"] = True       # outside the model's domain (vals_ok: None in a field the code does not hold for nullable)
+    return project(e, fields, defaults, inst, plain, sub, keep_none=bound_none if mode == "kf" else ())
 
 
 # ---- Coq terms for the nested correspondence ----
@@ -1126,9 +1159,10 @@ def eval_nested(ctx: vlib.Ctx, table, order, src, ns, rid: int, t, kon, kba, rca
     rep["observed"] = repr(observed)
     enc = PvEnc()
     in_domain = not hits
-    ncases.append(f"({coq_table(table, ns, enc)}, ({rid}%nat, {coq_node(table, t, inst, plain, enc)}), "
-                  f"(K {coq_ob(kon)} {coq_ob(kba)} {coq_ns(rcall)}), (Some {coq_tree_value(observed, enc)}), {coq_bool(in_domain)})")
-    ninfo.append(rep)
+    if "gdl" not in hits:      # that corner is a property of the call path (dialect or not), not of the class plan: oracle only
+        ncases.append(f"({coq_table(table, ns, enc)}, ({rid}%nat, {coq_node(table, t, inst, plain, enc)}), "
+                      f"(K {coq_ob(kon)} {coq_ob(kba)} {coq_ns(rcall)}), (Some {coq_tree_value(observed, enc)}), {coq_bool(in_domain)})")
+        ninfo.append(rep)
     rep["_ok"] = typed(observed) == typed(expected)
     rep["_kf_zone"] = bool(hits)
     if typed(observed) != typed(expected):
@@ -1137,14 +1171,16 @@ def eval_nested(ctx: vlib.Ctx, table, order, src, ns, rid: int, t, kon, kba, rca
             h2: dict = {}
             predicted = walk(table, ns, t, inst, plain, (rid,), ALL_FLAGS, avail, "kf", h2)
             if typed(predicted) == typed(observed):
-                kind = ("subclass-instance-flags" if hits.get("sub") else
-                        "union-member-flags" if hits.get("d8b") else "call-dialect-vs-flag-defaults")
+                kind = ("dialect-drops-type-args" if hits.get("gdl") else
+                        "subclass-instance-flags" if hits.get("sub") else
+                        "union-member-flags" if hits.get("d8b") else
+                        "omit-none-typevar-bound" if hits.get("tvb") else "call-dialect-vs-flag-defaults")
         ctx.fail(f"nested {rep['instance']}.to_dict({kwargs_src(ro)}) = {observed!r}, hereditary projection of the plain "
                  f"output is {expected!r}"[:500], rep, {"kind": kind, "entry": stream})
     ctx.hist("form", "nested-kf-zone" if hits else "nested-in-domain")
 
 
-def run_nested(ctx: vlib.Ctx, ncases: list[str], ninfo: list):
+def run_nested(ctx: vlib.Ctx, ncases: list[str], ninfo: list, dcases: dict | None = None):
     rng = ctx.rng
     for _ in range(ctx.budget(150, 1500)):
         table = gen_table(rng)
@@ -1159,6 +1195,8 @@ def run_nested(ctx: vlib.Ctx, ncases: list[str], ninfo: list):
             ctx.hist("nested_kind", "mixin" if c.mixin else ("plain+Config" if c.o != Opts() else "plain"))
             if c.generic:
                 ctx.hist("generic_binding", c.targ or "<bare>")
+        if dcases is not None and any(c.generic for c in table):
+            declared_cases(table, ns, dcases)
         for rid in roots[:3]:
             root = table[rid]
             ctx.hist("nested_root", "class0" if rid == 0 else "inner-mixin-as-root")
@@ -1211,9 +1249,16 @@ def eval_codec_nested(ctx: vlib.Ctx, table, src, ns, rid: int, t, dd, use_json: 
     ccases.append(f"({coq_table(table, ns, enc)}, ({rid}%nat, {coq_node(table, t, inst, plain, enc)}), "
                   f"{coq_ns(dd)}, (Some {coq_tree_value(observed, enc)}), {coq_bool(not hits)})")
     cinfo.append(rep)
+    rep["_ok"] = typed(observed) == typed(expected)
+    rep["_kf_zone"] = bool(hits)
     if typed(observed) != typed(expected):
+        kind = "codec-nested-projection-mismatch"
+        if hits.get("tvb"):
+            predicted = walk(table, ns, t, inst, plain, (rid,), ALL_FLAGS, (None, None, None), "kf", {}, codec=(dd,))
+            if typed(predicted) == typed(observed):
+                kind = "omit-none-typevar-bound"
         ctx.fail(f"codec {rep['instance']} with default_dialect={dd} encodes to {observed!r}, hereditary projection of the "
-                 f"plain output is {expected!r}"[:500], rep, {"kind": "codec-nested-projection-mismatch", "entry": "codec-nested"})
+                 f"plain output is {expected!r}"[:500], rep, {"kind": kind, "entry": "codec-nested"})
 
 
 def run_codec_nested(ctx: vlib.Ctx, ccases: list[str], cinfo: list):
@@ -1270,7 +1315,35 @@ def run_history(ctx: vlib.Ctx, ncases: list[str], ninfo: list):
                     unload(ns)
 
 
-def run_generic(ctx: vlib.Ctx, ncases: list[str], ninfo: list, ccases: list[str], cinfo: list):
+DECLARED_DEFS = """
+Definition P0 t d := {| p_name := "f"; p_alias := None; p_ty := t; p_trivial := true; p_default := d; p_omit := false |}.
+(* the TRANSLATED is_field_nullable on the declared type = the real one on the real class; the computed domain = the
+   harness's; inside the domain the model's `nullable` of the plan with the RESOLVED type = the real one *)
+Definition dcase_ok (c: dty * dflt * bool * bool) : bool :=
+  match c with (d, df, py, in_dom) =>
+    Bool.eqb (dty_ok d) in_dom &&
+    match is_field_nullable (enc_default df) (enc_dty d) with Ok (KBool b) => Bool.eqb b py | _ => false end &&
+    (negb (dty_ok d) || Bool.eqb (nullable (P0 (resolve d) df)) py) end.
+"""
+
+
+def declared_cases(table, ns, dcases: dict):
+    """for every class of the table: (declared type, default, is_field_nullable of the REAL class as its users specialise
+    it, in the domain of K17_nullable_declared_partial) per leaf field"""
+    for cid, c in enumerate(table):
+        fs = [f for f in c.fields if isinstance(f, FieldSpec)]
+        targs = (eval(c.targ, ns),) if (c.generic and c.targ) else ()
+        py = real_nullables(ns, f"C{cid}", fs, targs)
+        if len(py) != len(fs):                       # the builder could not be asked: a case that never holds
+            dcases[f"(DTy TyPlain, DNo, true, true) (* C{cid}: is_field_nullable not callable *)"] = None
+            continue
+        for f, b in zip(fs, py):
+            d = "DNo" if f.dkind == "no" else ("(DFac (POpq 0))" if f.dkind == "fac" else
+                                               "(DVal PNone)" if f.dsrc == "None" else "(DVal (POpq 0))")
+            dcases[f"({f.sh.dty}, {d}, {coq_bool(b)}, {coq_bool(not f.sh.bound_var)})"] = None
+
+
+def run_generic(ctx: vlib.Ctx, ncases: list[str], ninfo: list, ccases: list[str], cinfo: list, dcases: dict):
     """systematic (every run, every seed): a generic dataclass G(Generic[T]) with `gv: T` under every binding of
     GENERIC_SHAPES (bare, int, date, Optional[...], a wider union with None, Any) -- mixin / plain with Config / plain
     without Config -- with omit_none coming from its Config, its Config.dialect, the owner's forwarded keyword or the codec's
@@ -1280,31 +1353,42 @@ def run_generic(ctx: vlib.Ctx, ncases: list[str], ninfo: list, ccases: list[str]
     shapes = [DcField("i", (1,), False, "in", False), DcField("i", (1,), True, None, False),
               DcField("i", (1,), False, None, False, many=True), DcField("i", (1,), False, None, False, mapping=True),
               DcField("i", (2, 1), False, None, False)]
-    for targ, gsh in GENERIC_SHAPES.items():
+    for targ, gsh in list(GENERIC_SHAPES.items()) + [("<B>", BOUND_SHAPE)]:
         gv = FieldSpec("gv", gsh.key, "no", None, "GV", False)
         leaf = FieldSpec("y", "optint", "val", "None", None, False)
+        if gsh.bound_var:
+            gk = dict(generic=True, targ="", tvar="B")
+            ga = FieldSpec("ga", "int_none", "val", "None", None, False)
+        else:
+            gk = dict(generic=True, targ=targ)
+            ga = FieldSpec("ga", GENERIC_ANN_SHAPES[targ].key, "no", None, "GA", False)
         inner_kinds = [
-            NCls(Opts(cfg=("T", "U", "U")), (gv, leaf), True, generic=True, targ=targ),
-            NCls(Opts(cfgd=("T", "U", "T"), fon=True), (leaf, gv), True, generic=True, targ=targ),
-            NCls(Opts(cfg=("T", "U", "U")), (gv, leaf), False, generic=True, targ=targ),
-            NCls(Opts(), (gv, leaf), False, generic=True, targ=targ),
+            NCls(Opts(cfg=("T", "U", "U"), fdl=True), (gv, leaf, ga), True, **gk),
+            NCls(Opts(cfgd=("T", "U", "T"), fon=True), (leaf, ga, gv), True, **gk),
+            NCls(Opts(cfg=("T", "U", "U")), (gv, leaf), False, **gk),
+            NCls(Opts(), (ga, gv, leaf), False, **gk),
         ]
         for ik, inner in enumerate(inner_kinds):
             f = shapes[(ik + rng.randrange(len(shapes))) % len(shapes)]
-            outer = NCls(Opts(cfg=(rng.choice(TRI), "U", "U"), fon=ik == 1 or rng.random() < 0.3), (f, FieldSpec("w", "int", "val", "1", "W", False)), True)
+            outer = NCls(Opts(cfg=(rng.choice(TRI), "U", "U"), fon=ik == 1 or rng.random() < 0.3, fdl=ik == 0),
+                         (f, FieldSpec("w", "int", "val", "1", "W", False)), True)
             table = [outer, inner, other]
             order = [2, 1, 0]
             dd = ("T", "U", "U")
-            src = table_source(table, None, order) + dialect_source("DefD", dd)
+            call = ("F", "U", "T")
+            src = table_source(table, call, order) + dialect_source("DefD", dd)
             ns = load(src)
             ctx.hist("generic_binding", targ or "<bare>")
+            declared_cases(table, ns, dcases)
             for gval in gsh.values[:2]:          # the first value is None where the binding admits it
                 t = gen_tree(rng, table, 0)
                 t = force_gv(table, t, gval)
                 for kon in ((None, True, False) if outer.o.fon else (None,)):
                     eval_nested(ctx, table, order, src, ns, 0, t, kon, None, None, ncases, ninfo, stream="generic")
+                if outer.o.fdl:          # the call dialect reaches the (specialised) generic class
+                    eval_nested(ctx, table, order, src, ns, 0, t, None, None, call, ncases, ninfo, stream="generic")
                 # the specialised class itself as a codec type, omit_none from the codec's default dialect
-                t1 = (1, [gval if isinstance(x, FieldSpec) and x.name == "gv" else "None" for x in inner.fields])
+                t1 = (1, [gval if isinstance(x, FieldSpec) and x.name in ("gv", "ga") else "None" for x in inner.fields])
                 eval_codec_nested(ctx, table, src, ns, 1, t1, dd if ik != 1 else None, False, ccases, cinfo, stream="generic-codec")
             unload(ns)
 
@@ -1315,7 +1399,7 @@ def force_gv(table, t, gval: str):
     out = []
     for f, x in zip(table[cid].fields, ch):
         if isinstance(f, FieldSpec):
-            out.append(gval if (f.name == "gv" and table[cid].generic) else x)
+            out.append(gval if (f.name in ("gv", "ga") and table[cid].generic) else x)
         elif isinstance(x, list):
             out.append([force_gv(table, y, gval) for y in x] or [force_gv(table, gen_min_tree(table, f.members[0]), gval)])
         elif isinstance(x, dict):
@@ -1543,7 +1627,7 @@ def run(ctx: vlib.Ctx):
     ctx.theorems("props/C08_kernel_K8.vo", ["K8_forward", "K8_use_kwargs"], kernels=["K8"])
     ctx.theorems("props/C08_kernel_K13F.vo", ["K13F_defaults", "C08_ctx_kw_defaults"], kernels=["K13F", "K3"])
     ctx.theorems("props/C08_kernel_K14.vo", ["K14_passdown", "K14_pass_dd"], kernels=["K14"])
-    ctx.theorems("props/C08_kernel_K17.vo", ["K17_nullable"], kernels=["K17"])
+    ctx.theorems("props/C08_kernel_K17.vo", ["K17_nullable", "K17_nullable_declared_partial", "K17_bound_refuted"], kernels=["K17"])
     ctx.theorems("props/C08_kernel_K18.vo", ["K18_bookkeeping", "K18_use_kwargs"], kernels=["K18", "K8"])
     ctx.theorems("props/C08_project.vo", thm)
     ctx.theorems("props/C08_fix.vo", ["C08_project_fixed_full"])
@@ -1573,8 +1657,9 @@ def run(ctx: vlib.Ctx):
     ccases: list[str] = []
     cinfo: list = []
     run_history(ctx, ncases, ninfo)
-    run_generic(ctx, ncases, ninfo, ccases, cinfo)
-    run_nested(ctx, ncases, ninfo)
+    dcases: dict = {}
+    run_generic(ctx, ncases, ninfo, ccases, cinfo, dcases)
+    run_nested(ctx, ncases, ninfo, dcases)
 
     name = "to_dict-model-vs-generated-code"
     bad, log = vlib.coq_bad_idx("c08_flat", "OptProj", "", COQ_DEFS, cases, "case_ok",
@@ -1609,11 +1694,29 @@ def run(ctx: vlib.Ctx):
         ctx.correspondence(name, len(ccases), -1, log)
         ctx.not_shown("correspondence " + name, log)
     else:
+        stale = [i for i in bad if cinfo[i]["_ok"] and cinfo[i]["_kf_zone"]]
+        bad = [i for i in bad if i not in set(stale)]
+        if stale:
+            ctx.notes.append(f"model-stale: {len(stale)} codec correspondence cases inside the signatures of listed findings "
+                             f"(omit-none-typevar-bound) now satisfy the property")
         detail = ""
         if bad:
             r = cinfo[bad[0]]
             detail = f"{len(bad)} cases, first: {r['entry']} {r['instance']} default_dialect {r['default_dialect']} observed {r['observed']}\n{r['source']}"
         ctx.correspondence(name, len(ccases), len(bad), detail)
+        if bad:
+            ctx.not_shown("correspondence " + name, detail)
+
+    name = "declared-type-nullable-vs-is_field_nullable"
+    dlist = list(dcases)
+    bad, log = vlib.coq_bad_idx("c08_declared", "OptProj PyK_c08 K17Proofs", "From VerifGen Require Import K17.", DECLARED_DEFS, dlist,
+                                "dcase_ok", "dty * dflt * bool * bool", shard=400, needs=["theories/K17Proofs.vo"])
+    if bad is None:
+        ctx.correspondence(name, len(dlist), -1, log)
+        ctx.not_shown("correspondence " + name, log)
+    else:
+        detail = f"{len(bad)} cases, first: {dlist[bad[0]]}" if bad else ""
+        ctx.correspondence(name, len(dlist), len(bad), detail)
         if bad:
             ctx.not_shown("correspondence " + name, detail)
 
